@@ -141,7 +141,7 @@ func (r *redisStore) GetTokenResponse(ctx context.Context, sessionID string) (*T
 
 	if token.IDToken == "" {
 		log.Debug("id token not found")
-		return nil, nil
+		return nil, r.touch(ctx, sessionID, token.TimeAdded)
 	}
 
 	tokenResponse := token.TokenResponse()
@@ -198,7 +198,7 @@ func (r *redisStore) GetAuthorizationState(ctx context.Context, sessionID string
 	}
 
 	if state.State == "" || state.Nonce == "" || state.RequestedURL == "" || state.CodeVerifier == "" {
-		return nil, nil
+		return nil, r.touch(ctx, sessionID, state.TimeAdded)
 	}
 
 	if err := r.refreshExpiration(ctx, sessionID, state.TimeAdded); err != nil {
@@ -229,6 +229,16 @@ func (r *redisStore) RemoveSession(ctx context.Context, sessionID string) error 
 func (r *redisStore) RemoveAllExpired(context.Context) error {
 	// Sessions are automatically expired by Redis
 	return nil
+}
+
+// touch records a read that found no data of the requested kind as a use of the session, if there is a
+// session: like in the in-memory store, the idle timeout counts from the last time the session was accessed,
+// whatever the access found.
+func (r *redisStore) touch(ctx context.Context, sessionID string, timeAdded time.Time) error {
+	if timeAdded.IsZero() {
+		return nil
+	}
+	return r.refreshExpiration(ctx, sessionID, timeAdded)
 }
 
 func (r *redisStore) refreshExpiration(ctx context.Context, sessionID string, timeAdded time.Time) error {
